@@ -31,7 +31,7 @@ THEOREMS = ["C15_scalar_broadcasts", "C15_sequence_zips", "C15_wrong_length_rais
             "C15_membership_changes_only_by_add_or_member_list", "C15_observe_once",
             "C15_observe_each_member_exactly_once_in_histories", "C15_member_refusal_touches_nothing_else",
             "C15_direct_member_change_is_read_back", "C15_iteration_yields_members",
-            "C15_constructor_adds_in_order", "C15_member_list_assignment"]
+            "C15_constructor_adds_in_order", "C15_member_list_assignment", "C15_read_in_any_state"]
 
 HEADER = ("Require Import Cherab.Common.Qx.\nFrom Coq Require Import String.\n"
           "Require Import Cherab.Model.C15_Groups Cherab.Model.C15_Table Cherab.Model.C15_Check.\n"
@@ -318,6 +318,38 @@ class Impl:
         if d[0] == "vector":
             return self.Vector3D(*rng.choice([(1, 0, 0), (-1, 0, 0), (0, 1, 0), (0, -1, 0), (0, 0, 1)]))
         raise KeyError(attr)
+
+    def probe_rules(self):
+        """behavioural probe of RULES / coerce (the harness' prediction of which member refuses what):
+        every rule is compared with the real member setter on the boundary values of its guards"""
+        n, bad = 0, []
+        ints = [0, -1, 1, 2, 9, 10, 11, 15, 16, 99, 100, 101, INT_MAX, INT_MAX + 1, -INT_MAX - 1, -INT_MAX - 2]
+        floats = [0.0, -0.0, 1.0, -1.0, 0.5, 2.0 ** 900, 5e-324, 2.0 ** -1000, 90.0, float(np.nextafter(90.0, 100.0)),
+                  float(np.nextafter(1.0, 2.0)), float(np.nextafter(1.0, 0.0)), -2.0 ** 900, 375.0, 740.0, 100.0, 900.0]
+        for ty in sorted(self.base_types):
+            for attr in sorted(RULES):
+                probe = self.make_member(ty, "p")
+                if not hasattr(probe, attr):
+                    continue
+                try:
+                    setattr(probe, attr, getattr(probe, attr))
+                except AttributeError:
+                    continue          # read-only on this observer type (e.g. FibreOptic.sensitivity): no group sets it
+                vals = ints if DOM[attr][0] == "int" else [v for v in floats if attr not in NO_EXTREME or v == 0 or 2.0 ** -60 <= abs(v) <= 2.0 ** 60]
+                for v in vals:
+                    m = self.make_member(ty, "p")
+                    want = self.rejects(attr, v, m)
+                    n += 1
+                    try:
+                        setattr(m, attr, v)
+                        got = None
+                        if want is None and not self.same(getattr(m, attr), self.coerce(attr, v)):
+                            bad.append((ty, attr, v, "stored %r" % (getattr(m, attr),)))
+                    except Exception as ex:
+                        got = err_of(ex)
+                    if got != want:
+                        bad.append((ty, attr, v, "rule says %s, member says %s" % (want, got)))
+        return n, bad
 
     def numeric(self, attr):
         return DOM[attr][0] in ("int", "float", "bool")
@@ -653,6 +685,7 @@ class Case:
         self.ops, self.res, self.desc = [], [], []
         self.dropped = set()
         self.stats = {}
+        self.cps = []
         if script is None:
             self.run(max_ops)
         else:
@@ -689,6 +722,20 @@ class Case:
         self.ops.append(coq_op)
         self.res.append(r)
         self.desc.append(desc)
+        # checkpoint: the full state of every member right after this operation (always after a member
+        # refused a value, an error, a member-list assignment; otherwise at random)
+        if len(self.members()) <= 12 and (coq_op.startswith(("OAssignRej", "OSetMembers", "ODirect")) or r.startswith("RErr")
+                                          or self.rng.random() < 0.1):
+            self.cps.append("(%d%%nat, [%s])" % (len(self.ops) - 1, ";\n    ".join(self.snapshot())))
+
+    def snapshot(self):
+        snaps = []
+        for m in self.members():
+            vals = "; ".join(self.impl.enc(self.impl.read(m, a)) for a in self.attrs)
+            snaps.append("{| s_id := %d; s_ty := %d; s_parent_ok := %s; s_obs := %d; s_vals := [%s] |}" % (
+                self.ids[id(m)], self.pool[self.ids[id(m)] - 1][1], "true" if m.parent is self.g else "false",
+                getattr(m, "verif_obs", 0), vals))
+        return snaps
 
     def op_add(self, wrong=False, ty=None, method=None):
         impl, rng = self.impl, self.rng
@@ -975,23 +1022,19 @@ class Case:
 
     def finish(self):
         # final state of every member
-        snaps = []
-        for m in self.members():
-            vals = "; ".join(self.impl.enc(self.impl.read(m, a)) for a in self.attrs)
-            snaps.append("{| s_id := %d; s_ty := %d; s_parent_ok := %s; s_obs := %d; s_vals := [%s] |}" % (
-                self.ids[id(m)], self.pool[self.ids[id(m)] - 1][1], "true" if m.parent is self.g else "false",
-                getattr(m, "verif_obs", 0), vals))
-        self.snaps = snaps
-        self.n_final = len(snaps)
+        self.snaps = self.snapshot()
+        self.n_final = len(self.snaps)
 
     def coq(self, i):
         pool = ";\n    ".join("(%d, (%d, %s))" % (oid, ty, st) for oid, ty, _, st in self.pool)
         return ("Definition env_%d : env := {| e_pool := [\n    %s] |}.\n"
                 "Definition ops_%d : list op := [%s].\n"
                 "Definition impl_%d : list res := [%s].\n"
-                "Definition final_%d : list snap := [%s].\n" % (
-                    i, pool, i, ";\n  ".join(self.ops), i, ";\n  ".join(self.res), i, ";\n  ".join(self.snaps)),
-                "check_case cls_%s env_%d ops_%d impl_%d final_%d" % (self.cname, i, i, i, i))
+                "Definition final_%d : list snap := [%s].\n"
+                "Definition cps_%d : list (nat * list snap) := [%s].\n" % (
+                    i, pool, i, ";\n  ".join(self.ops), i, ";\n  ".join(self.res), i, ";\n  ".join(self.snaps),
+                    i, ";\n  ".join(self.cps)),
+                "check_case_cp cls_%s env_%d ops_%d impl_%d final_%d cps_%d" % (self.cname, i, i, i, i, i))
 
     def meta(self):
         return {"class": self.cname, "initial_size": self.n_init, "final_size": self.n_final,
@@ -1037,6 +1080,9 @@ def run(ctx):
     rng = ctx.rng
     quick = ctx.quick
 
+    n_probe, bad_probe = impl.probe_rules()
+    ctx.obligation("probe: the harness' table of raysect's member-setter guards (RULES, C-type coercions) agrees with the "
+                   "real member setters on %d boundary probes" % n_probe, "probe", not bad_probe, str(bad_probe[:5]))
     # ---- (T) translator + Gen tie lemmas ------------------------------------------------------
     table = tr.extract(impl.classes)
     n_entries = sum(len(rows) for _, rows in table)
@@ -1092,7 +1138,7 @@ def run(ctx):
         ctx.violation(f["key"], "%s.%s: %s" % (f["class"], f["where"], f["claim"]), f, found=True)
     unknown = [f for f in fails if f["key"] not in ctx.known]
     # ---- (X) correspondence -----------------------------------------------------------------------
-    n_cases = 630 if quick else 9000
+    n_cases = 450 if quick else 6300
     max_ops = 9 if quick else 14
     rows_of = dict(table)
     cases = []
@@ -1111,7 +1157,7 @@ def run(ctx):
         cname = impl.classes[i % len(impl.classes)][0]
         cases.append(Case(impl, rng, cname, rows_of[cname], attrs_of[cname], max_ops, base_names))
     ctx.log("generated and executed %d histories on the implementation" % len(cases))
-    per_file = 90 if quick else 250
+    per_file = 60 if quick else 90
     files = []
     for s in range(0, len(cases), per_file):
         chunk = cases[s:s + per_file]
@@ -1123,7 +1169,13 @@ def run(ctx):
         txt = (HEADER + "\n".join(defs_txt) + "\nDefinition results : list bool := [\n  " + ";\n  ".join(calls)
                + "].\nEval vm_compute in (failing results).\n")
         files.append((ctx.write_gen("cases_%03d.v" % (s // per_file), txt), list(range(s, s + len(chunk)))))
-    res = coqc_many([f for f, _ in files], timeout=900)
+    res = coqc_many([f for f, _ in files], timeout=900, jobs=16 if quick else 10)
+    for f, _ in files:
+        ok, out = res[f]
+        if not ok and "Error" not in out:
+            # no Coq error message: the process was killed (memory pressure on a shared machine) or timed out; once more, alone
+            ctx.log("retrying %s (coqc ended without an error message: %r)" % (os.path.basename(f), out[-80:]))
+            res[f] = coqc(f, timeout=1800)
     diff_cases = []
     for f, idxs in files:
         ok, out = res[f]
@@ -1183,7 +1235,8 @@ def run(ctx):
                          "op_mix": {k: v for k, v in sorted(stats.items()) if not k.startswith("assign@")},
                          "assignments_per_attribute": attr_hits, "class_attribute_pairs_assigned": len(pairs),
                          "extracted_table_entries": n_entries, "search_checks": n_checks, "search_group_sizes": sizes,
-                         "disagreeing_histories": len(diff_cases)},
+                         "disagreeing_histories": len(diff_cases),
+                         "intermediate_state_checkpoints": sum(len(c.cps) for c in cases)},
         "tolerance": "none: numbers are dyadic and compared as exact rationals, objects by identity, error kinds exactly",
         "input_classes": ["histories on one live group incl. constructor observers= vs add_observer, direct member changes, the same "
                           "value object assigned again, member list re-assigned, observe repeated",
